@@ -83,6 +83,15 @@ func runBubble(t *testing.T, f func(t *testing.T)) {
 	}
 }
 
+// yieldHook is what instrumented library code calls before touching process-wide state.
+func yieldHook(site int) {
+	r, oc := curOp()
+	if r == nil || oc == nil || r.sc == nil {
+		return
+	}
+	r.sc.yield(ypGlobal, -1000-site)
+}
+
 var theRun *runCtx
 
 //go:norace
@@ -253,7 +262,11 @@ func callback(key string) (any, error) {
 			if oc != nil {
 				oc.ticks++
 			}
-			time.Sleep(time.Duration(ms) * time.Millisecond)
+			// the bubble's clock is an int64 of nanoseconds: many long ticks in one run must not carry
+			// it past the representable range (the runtime then dies with "bad g->status in ready")
+			if time.Now().Year() < 2150 {
+				time.Sleep(time.Duration(ms) * time.Millisecond)
+			}
 			if r != nil && r.sc != nil {
 				r.sc.yield(ypCallback, -2)
 			}
